@@ -67,8 +67,29 @@ def run_case(img, case, secrets=None, max_steps=3000000, prepare=None):
     res.error = None
     if prepare is not None:
         prepare(m, mem, regs)
+    calls = getattr(case, "calls", None) or [(case.func, None)]
     try:
-        m.run(img.symbols[case.func], max_steps=max_steps)
+        for ci, (fn, cargs) in enumerate(calls):
+            if cargs is not None:
+                # a further call on the same memory: the caller-saved registers, flags and vector state are garbage again
+                for r_ in ("rax", "rcx", "rdx", "rsi", "rdi", "r8", "r9", "r10", "r11"):
+                    m.g[r_] = z3.BitVec("stale_%s_call%d" % (r_, ci), 64)
+                for k in range(32):
+                    m.v[k] = z3.BitVec("stale_zmm%d_call%d" % (k, ci), 512)
+                for k in range(8):
+                    m.k[k] = z3.BitVec("stale_k%d_call%d" % (k, ci), 64)
+                m.flags = {f: z3.Bool("stale_flag_%s_call%d" % (f, ci)) for f in ("zf", "cf", "sf", "of")}
+                m.g["rsp"] = STACK_TOP
+                mem.set_value(stack, STACK_TOP - STACK_BASE, 0xdead0000, 64)
+                for k, a in enumerate(cargs[:6]):
+                    m.g[ARGREGS[k]] = a
+                for k, a in enumerate(cargs[6:]):
+                    mem.set_value(stack, STACK_TOP - STACK_BASE + 8 + 8 * k, a, 64)
+            if fn not in img.symbols:
+                raise vecsym.Unsupported("symbol %s not found" % fn)
+            m.run(img.symbols[fn], max_steps=max_steps)
+            if ci + 1 < len(calls) and simp(m.g["rsp"]) != STACK_TOP + 8:
+                raise vecsym.Violation("%s returns with a wrong stack pointer" % fn)
     except vecsym.Unsupported as u:
         res.error = "unsupported: %s" % u
     except vecsym.Violation as v:
